@@ -443,6 +443,22 @@ func (fx *FX) addLoopNames(fr *frame, env *Env, b *ssa.BasicBlock) {
 			env.names[phi.Comment] = v
 		}
 	}
+	// "$i" in a loop that is not (or no longer) a range loop: its only integer loop variable
+	if _, have := env.names["$i"]; !have {
+		var cand []*ssa.Phi
+		for _, instr := range b.Instrs {
+			phi, ok := instr.(*ssa.Phi)
+			if !ok {
+				break
+			}
+			if bt, ok := phi.Type().Underlying().(*types.Basic); ok && bt.Info()&types.IsInteger != 0 {
+				cand = append(cand, phi)
+			}
+		}
+		if len(cand) == 1 {
+			env.names["$i"] = fr.vals[cand[0]]
+		}
+	}
 	// loop variables renamed since the contracts were written
 	if rec := fx.e.Recorded[fx.e.fnName(fr.fn)]; rec != nil {
 		if ord, ok := fr.loopOrd[b]; ok {
@@ -455,6 +471,17 @@ func (fx *FX) addLoopNames(fr *frame, env *Env, b *ssa.BasicBlock) {
 				}
 				if phi := fx.e.phiAlias(fr.fn, b, ord, o.Name); phi != nil && phi.Comment != "rangeindex" {
 					env.names[o.Name] = fr.vals[phi]
+				} else if v, isRange := env.names["$i"]; isRange && o.Type == "int" && o.Name != "rangeindex" {
+					// the explicit index variable of a loop that became a range loop
+					stillThere := false
+					for _, instr := range b.Instrs {
+						if p2, ok := instr.(*ssa.Phi); ok && p2.Comment == o.Name {
+							stillThere = true
+						}
+					}
+					if !stillThere {
+						env.names[o.Name] = v
+					}
 				}
 			}
 		}
